@@ -736,6 +736,11 @@ func collectMutableFields(pkgs []*packages.Package) map[string]bool {
 				case *ast.IncDecStmt:
 					lhs = []ast.Expr{x.X}
 				}
+				if ce, ok := nd.(*ast.CallExpr); ok {
+					if id, ok := ce.Fun.(*ast.Ident); ok && id.Name == "append" && len(ce.Args) > 0 {
+						lhs = append(lhs, ce.Args[0])
+					}
+				}
 				for _, l := range lhs {
 					if sel := lhsField(l); sel != nil {
 						if name, _, ok := objField(p, sel); ok {
@@ -801,6 +806,13 @@ func insertFieldAccess(p *packages.Package, f *ast.File, relFile string, mutable
 			case *ast.IncDecStmt:
 				if sel := lhsField(x.X); sel != nil {
 					written[sel] = true
+				}
+			case *ast.CallExpr:
+				// append(x.f, ...) / append(*x.f, ...) may write into the backing array that x.f shares
+				if id, ok := x.Fun.(*ast.Ident); ok && id.Name == "append" && len(x.Args) > 0 {
+					if sel := lhsField(x.Args[0]); sel != nil {
+						written[sel] = true
+					}
 				}
 			case *ast.SelectorExpr:
 				add(x, written[x])
